@@ -352,6 +352,37 @@ def run(ctx):
                           % (arch, text.replace("\n", " ; ")), rep)
         cases.append(case)
     ctx.coverage["write_back_family"] = wb_hist
+    # sub-register writes to an address register (addl $8,%eax between accesses through %rax; add w1,w1,#4 vs [x1]): the
+    # tracker records the change under the written name only, so the wider register still counts as unchanged
+    subfam = []
+    for d in ("", "8"):
+        for mid in ("addl $8, %eax", "subl $16, %eax", "incl %eax", "movl %ebx, %eax", "addw $8, %ax", "xorl %eax, %eax"):
+            subfam.append(("x86", "movq %%rdx, %s(%%rax)\n%s\nmovq %s(%%rax), %%rsi\n" % (d, mid, d)))
+    for d in ("[x1]", "[x1, #8]"):
+        for mid in ("add w1, w1, #4", "sub w1, w1, #8", "mov w1, w3"):
+            subfam.append(("aarch64", "str x9, %s\n%s\nldr x12, %s\n" % (d, mid, d)))
+    nsub = 0
+    for isa, text in subfam:
+        ms = [m for m in (X86_MODELS if isa == "x86" else A64_MODELS) if m in avail]
+        arch = ms[0]
+        if arch not in pipes:
+            pipes[arch] = deps.Pipeline(ctx, isa, arch=arch)
+        rep = {"isa": isa, "arch": arch, "text": text}
+        try:
+            case, kernel, dg = deps.build_case(pipes[arch], text, False, with_lcd=False, with_cp=False)
+            instrs = [k for k in kernel if k.mnemonic is not None]
+            found = [d_.line_number for d_, f in dg.find_depending(instrs[0], instrs[1:]) if "storeload_dep" in f]
+        except Exception as e:  # noqa
+            ctx.violation("memdep-raises", "analysis of a store/load kernel raises %r" % e, rep)
+            continue
+        case["origin"] = "sub-register bump on " + arch
+        cases.append(case)
+        ctx.count()
+        if instrs[-1].line_number in found:
+            nsub += 1
+            ctx.violation("store-load-edge-spurious:subregister-write", "%s: dependency reported although a sub-register of the address register "
+                          "was written in between (the wider register is still treated as unchanged): %s" % (arch, text.replace("\n", " ; ")), rep)
+    ctx.coverage["subregister_family"] = {"kernels": len(subfam), "spurious_links": nsub}
     # symbolic displacement (crash class fixed in /repo)
     for isa, arch, text in (("x86", "zen2", "movq %rax, foo(%rip)\nmovq 8(%rbx), %rcx\n"), ("aarch64", "a64fx", "str x1, [x2, :lo12:foo]\nldr x3, [x4, #8]\n")):
         if arch in avail:
